@@ -13,6 +13,7 @@ import (
 
 func init() {
 	vRegister("HarnessC14_transforms", HarnessC14_transforms)
+	vRegister("HarnessC14_args", HarnessC14_args)
 	vRegister("HarnessC14_base64", HarnessC14_base64)
 	vRegister("HarnessC14_codecs", HarnessC14_codecs)
 	vRegister("HarnessC14_badargs", HarnessC14_badargs)
@@ -235,6 +236,48 @@ func HarnessC14_transforms() {
 	out := got[0].(map[string]any)
 	vObserve("out", out["e"])
 	vAssert("C14.transform.result", vEq(out["e"], want))
+}
+
+// HarnessC14_args: the argument of join / prefix / tolist is any string of
+// 0-2 bytes (the empty one included), over every input shape: the transform
+// still does exactly what it names (e.g. an empty prefix still turns every
+// element into a string and still rejects a non-list).
+func HarnessC14_args() {
+	arg := ndStr(2, "set:,-=p. ")
+	t := []string{"join:", "prefix:", "tolist:"}[ndChoice(3)] + arg
+	var x any
+	switch ndChoice(5) {
+	case 0:
+		x = c14List()
+	case 1:
+		x = c14Map()
+	case 2:
+		x = c14Scalar()
+	case 3:
+		x = []any{c14Map(), map[string]any{"c": c14Scalar()}}
+	default:
+		x = []any{}
+	}
+	var enc any = t
+	if ndChoice(2) == 1 {
+		enc = []any{t}
+	}
+	doc := map[string]any{"e": map[string]any{"$encode": enc, "$value": vCopy(x)}}
+	vObserve("doc", doc)
+	want := c14Apply([]string{t}, x)
+	got, err := c06Eval(doc)
+	vObserve("err", err != nil)
+	if _, bad := want.(c14Err); bad {
+		vCover("transform.invalid")
+		vAssert("C14.args.reject", err != nil)
+		return
+	}
+	vObserve("want", want)
+	vCover("transform.valid")
+	vAssert("C14.args.accepted", err == nil)
+	out := got[0].(map[string]any)
+	vObserve("out", out["e"])
+	vAssert("C14.args.result", vEq(out["e"], want))
 }
 
 // c14B64: independent base64 (RFC 4648, standard alphabet, padded).
